@@ -12,8 +12,10 @@
   respect to the stored deadline and the index `expiring_keys`; `sweepCollect` / `sweepDelete` are the two
   phases of the sweeper, interleavable with any storage call (`Step`, `runM`, `trace`); `Spec.step` is the
   prescribed instant-expiry store.  The facts `c : Cfg` are regenerated from the source (`Gen/Expiry.lean`,
-  `codeCfg` below); `Cfg.pinned` is the tree as it was confirmed over TCP when this file was written,
-  `Cfg.fixed` the prescribed behaviour.  The single instant `now = deadline` is left to either side.
+  `codeCfg` below); `Cfg.pinned` is the tree as it was confirmed over TCP BEFORE the repairs 191d9b7 (sweeper re-check),
+  3b7595a (index maintenance) and ab54c21 (central lazy expiry in `get_shard`) — an explicit quirk record the witness
+  lemmas are about; `Cfg.fixed` the prescribed behaviour.  The tie theorems (`tree_is_repaired`, `code_*`) state that the
+  tables regenerated from the CURRENT source have the repaired values and that the full statements hold for `codeCfg`.  The single instant `now = deadline` is left to either side.
 
   Statements at full strength are proved for every configuration that has the repair switch(es) they need;
   for the code as it is (`Cfg.pinned`) the negation is proved by a concrete witness and the provable part
@@ -34,7 +36,7 @@ def pinnedLazy : List String :=
   ["exists", "get", "get_string", "hscan", "scan", "set_string_nx", "set_string_nx_ex", "sscan", "was_modified_since", "zscan"]
 def pinnedReaping : List String := ["get", "get_string", "hscan", "sscan", "zscan"]
 
-/-- The tree as confirmed on the real server when this file was written: lazy tests only in `get` (and what reads
+/-- The tree as confirmed on the real server before the repairs (explicit quirk record): lazy tests only in `get` (and what reads
     through it), `exists`, `set_string_nx(_ex)`, `scan`, `was_modified_since`; no index maintenance in `set_value`
     without TTL, `set_string_nx`, `rename`, the emptying deletes; no re-check in the sweeper. -/
 def Cfg.pinned : Cfg :=
@@ -50,6 +52,79 @@ def codeCfg : Cfg :=
 
 def kA : Key := [97]
 def kB : Key := [98]
+
+/-! ### Tie to the current source: the regenerated tables have the repaired values -/
+
+/-- TABLE: the sweeper re-checks the stored deadline, the index is maintained at every site, `get_shard` tests expiry for
+    every single-key function, and NO storage function looks at `data` without a lazy test. -/
+theorem tree_is_repaired :
+    Gen.sweeperRechecks = true ∧ Gen.setValueDropsStale = true ∧ Gen.setNxDropsStale = true ∧ Gen.renameMovesIndex = true ∧
+    Gen.emptiedDropsIndex = true ∧ Gen.centralLazy = true ∧ Gen.notLazy = [] := by decide
+
+/-- the engine functions behind the three table-driven classes of storage calls -/
+def readFns : List String :=
+  ["strlen", "getrange", "llen", "lrange", "lindex", "lset", "ltrim", "smembers", "sismember", "scard", "sunion", "sinter", "sdiff",
+   "srandmember", "sscan", "hget", "hmget", "hgetall", "hlen", "hexists", "hkeys", "hvals", "hscan", "zscore", "zcard", "zrank", "zrange",
+   "zrangebyscore", "zcount", "zscan", "xlen", "xrange", "xrevrange", "xread"]
+def updateFns : List String :=
+  ["incr", "incr_by", "append", "setrange", "lpush", "rpush", "sadd", "hset", "hincrby", "zadd", "zincrby", "xadd", "xadd_with_id"]
+def shrinkFns : List String := ["lpop", "rpop", "ltrim", "lrem", "srem", "spop", "hdel", "zrem", "xdel", "xtrim"]
+def keysFns : List String := ["keys", "get_all_keys"]
+
+/-- a storage call that names a real engine function of its class -/
+def wfOp : Op → Bool
+  | .read fn _ _ => readFns.contains fn
+  | .update fn _ _ _ => updateFns.contains fn
+  | .shrink fn _ _ => shrinkFns.contains fn
+  | .keys fn => keysFns.contains fn
+  | _ => true
+
+def wfSteps : List Step → Bool
+  | [] => true
+  | .op o _ :: r => wfOp o && wfSteps r
+  | _ :: r => wfSteps r
+
+/-- TABLE (current tree): every engine function of every class has a lazy test, and the ones that create keys remove what
+    they find expired; hence every well-formed storage call is lazily checked and keeps the index. -/
+theorem code_ops_lazy_and_keep_index (o : Op) (h : wfOp o = true) :
+    lazyOp codeCfg o = true ∧ keepsIndex codeCfg o = true := by
+  have hr : ∀ fn ∈ readFns, codeCfg.lazy fn = true := by decide
+  have hu : ∀ fn ∈ updateFns, codeCfg.lazy fn = true ∧ codeCfg.reaps fn = true := by decide
+  have hs : ∀ fn ∈ shrinkFns, codeCfg.lazy fn = true := by decide
+  have hk : ∀ fn ∈ keysFns, codeCfg.lazy fn = true := by decide
+  have hsv : codeCfg.setValueDropsStale = true := by decide
+  have hnx : codeCfg.setNxDropsStale = true := by decide
+  have hem : codeCfg.emptiedDropsIndex = true := by decide
+  have hrn : codeCfg.renameMovesIndex = true := by decide
+  cases o with
+  | setValue k tag v ttl => exact ⟨rfl, by simp [keepsIndex, hsv]⟩
+  | setNx k v ttl =>
+    refine ⟨?_, by simp [keepsIndex, hnx]⟩
+    cases ttl
+    · exact (by decide : codeCfg.lazy "set_string_nx" = true)
+    · exact (by decide : codeCfg.lazy "set_string_nx_ex" = true)
+  | get k => exact ⟨(by decide : codeCfg.lazy "get" = true), rfl⟩
+  | «exists» k => exact ⟨(by decide : codeCfg.lazy "exists" = true), rfl⟩
+  | delete k => exact ⟨(by decide : codeCfg.lazy "delete" = true), rfl⟩
+  | expire k t => exact ⟨(by decide : codeCfg.lazy "expire" = true), rfl⟩
+  | persist k => exact ⟨(by decide : codeCfg.lazy "persist" = true), rfl⟩
+  | ttl k => exact ⟨(by decide : codeCfg.lazy "ttl" = true), rfl⟩
+  | keyType k => exact ⟨(by decide : codeCfg.lazy "key_type" = true), rfl⟩
+  | read fn k tag =>
+    have := hr fn (by simpa [wfOp] using h)
+    exact ⟨this, rfl⟩
+  | update fn k tag d =>
+    have := hu fn (by simpa [wfOp] using h)
+    exact ⟨this.1, by simp [keepsIndex, this.2]⟩
+  | shrink fn k tag =>
+    have := hs fn (by simpa [wfOp] using h)
+    exact ⟨this, by simp [keepsIndex, hem]⟩
+  | rename a b => exact ⟨(by decide : codeCfg.lazy "rename" = true), by simp [keepsIndex, hrn]⟩
+  | keys fn =>
+    have := hk fn (by simpa [wfOp] using h)
+    exact ⟨this, rfl⟩
+  | scan => exact ⟨(by decide : codeCfg.lazy "scan" = true), rfl⟩
+  | flush => exact ⟨rfl, rfl⟩
 
 /-! ### (1) The index agrees with the stored deadlines -/
 
@@ -89,7 +164,29 @@ theorem index_agrees_partial (c : Cfg) (steps : List Step) (m : M) (h : IndexAgr
       | delete now => exact sweepDelete_ia c now m.pending m.shard h
     · intro st' hst; exact hk st' (List.mem_cons_of_mem _ hst)
 
-/-- `SET k v EX ..; SET k v2`: `set_value` without a TTL leaves the index entry of the old value (engine.rs:270). -/
+/-- THE CURRENT TREE: (I) is an invariant of every run of well-formed storage calls and sweeper phases from the empty server. -/
+theorem code_index_agrees (steps : List Step) (hw : wfSteps steps = true) : IndexAgrees (runM codeCfg M.empty steps).shard := by
+  apply index_agrees_partial codeCfg steps M.empty indexAgrees_empty
+  induction steps with
+  | nil => intro st h; simp at h
+  | cons st r ih =>
+    intro st' hst
+    cases st with
+    | op o now =>
+      simp only [wfSteps, Bool.and_eq_true] at hw
+      rcases List.mem_cons.mp hst with h | h
+      · subst h; exact (code_ops_lazy_and_keep_index o hw.1).2
+      · exact ih hw.2 st' h
+    | collect now =>
+      rcases List.mem_cons.mp hst with h | h
+      · subst h; trivial
+      · exact ih (by simpa [wfSteps] using hw) st' h
+    | delete now =>
+      rcases List.mem_cons.mp hst with h | h
+      · subst h; trivial
+      · exact ih (by simpa [wfSteps] using hw) st' h
+
+/-- `SET k v EX ..; SET k v2` before 3b7595a: `set_value` without a TTL left the index entry of the old value. -/
 theorem index_agrees_fails_set_over_ttl :
     ∃ s, IndexAgrees s ∧ ¬ IndexAgrees (step Cfg.pinned (.setValue kA .str 2 none) 10 s).1 := by
   refine ⟨(step Cfg.pinned (.setValue kA .str 1 (some 1000)) 0 Shard.empty).1, ?_, ?_⟩
@@ -127,10 +224,16 @@ theorem no_spurious_delete (c : Cfg) (hr : c.sweeperRechecks = true) (steps : Li
     SweepSafe c m steps :=
   sweepSafe_of_recheck c hr steps m
 
-/-- … which is the statement about the current tree as soon as the translator sees the re-check in the source. -/
-theorem code_no_spurious_delete (h : Gen.sweeperRechecks = true) (steps : List Step) (m : M) :
-    SweepSafe codeCfg m steps :=
-  sweepSafe_of_recheck codeCfg h steps m
+/-- THE CURRENT TREE: the translator sees the re-check in `expiration_cleanup_loop` (`Gen.sweeperRechecks`), so the full
+    statement holds for the code as it is, for every run from every state. -/
+theorem code_no_spurious_delete (steps : List Step) (m : M) : SweepSafe codeCfg m steps :=
+  sweepSafe_of_recheck codeCfg (by decide) steps m
+
+/-- THE CURRENT TREE: a key without TTL (or whose TTL has not elapsed) is never deleted by the server on its own. -/
+theorem code_never_deleted_on_its_own (k : Key) (e : Stored) (steps : List Step) (m : M)
+    (hl : lookup m.shard.data k = some e) (hq : ∀ st ∈ steps, st.avoids k = true) (ht : ∀ st ∈ steps, expired st.time e = false) :
+    lookup (runM codeCfg m steps).shard.data k = some e :=
+  entry_survives codeCfg (by decide) k e steps m hl hq ht
 
 /-- … and in client terms: an entry survives, value and deadline intact, every run of sweeper phases and of calls
     about other keys for as long as its stored deadline has not passed — for ever if it has none.  ("A key that has
@@ -253,20 +356,13 @@ theorem never_late_partial (c : Cfg) (o : Op) (now : Nat) (s : Shard) (hn : Nodu
     (step c o now s).2 = (Spec.step o now s.data).2 :=
   step_refines c o now s hn (Or.inl h)
 
-/-- GET, EXISTS, SET NX, SCAN and every blind overwrite are never late on the tree as the translator sees it now
-    (this is a statement about `Gen.lazyChecked`: it stops checking if one of these functions loses its test). -/
-theorem code_never_late_checked (now : Nat) (s : Shard) (hn : NodupKeys s.data) (o : Op)
-    (ho : (∃ k, o = .get k) ∨ (∃ k, o = .exists k) ∨ (∃ k v t, o = .setNx k v t) ∨ o = .scan ∨ (∃ k g v t, o = .setValue k g v t)) :
-    (step codeCfg o now s).2 = (Spec.step o now s.data).2 := by
-  apply (step_refines codeCfg o now s hn (Or.inl _)).2
-  rcases ho with ⟨k, rfl⟩ | ⟨k, rfl⟩ | ⟨k, v, t, rfl⟩ | rfl | ⟨k, g, v, t, rfl⟩
-  · exact (by decide : codeCfg.lazy "get" = true)
-  · exact (by decide : codeCfg.lazy "exists" = true)
-  · cases t
-    · exact (by decide : codeCfg.lazy "set_string_nx" = true)
-    · exact (by decide : codeCfg.lazy "set_string_nx_ex" = true)
-  · exact (by decide : codeCfg.lazy "scan" = true)
-  · rfl
+/-- THE CURRENT TREE, never late: every well-formed storage call, on every state, returns what the instant-expiry store
+    returns and leaves the same visible entries (this is a statement about `Gen.lazyChecked`: it stops checking as soon as
+    one engine function loses its test). -/
+theorem code_never_late (o : Op) (hw : wfOp o = true) (now : Nat) (s : Shard) (hn : NodupKeys s.data) :
+    Spec.purge now (step codeCfg o now s).1.data = (Spec.step o now s.data).1 ∧
+    (step codeCfg o now s).2 = (Spec.step o now s.data).2 :=
+  step_refines codeCfg o now s hn (Or.inl (code_ops_lazy_and_keep_index o hw).1)
 
 /-- ALL INTERLEAVINGS: when every storage function has a lazy test and the sweeper re-checks, every run of client calls
     interleaved in any way with collect and delete phases (times non-decreasing) returns, call by call, exactly what
@@ -274,6 +370,23 @@ theorem code_never_late_checked (now : Nat) (s : Shard) (hn : NodupKeys s.data) 
 theorem fixed_refines_spec (c : Cfg) (hl : ∀ o, lazyOp c o = true) (hr : c.sweeperRechecks = true) (steps : List Step)
     (hm : monotoneFrom 0 steps = true) : trace c M.empty steps = Spec.trace [] steps :=
   run_refines c hl hr steps M.empty [] 0 nodup_nil rfl hm
+
+/-- THE CURRENT TREE, all interleavings: every run of well-formed storage calls interleaved in any way with collect and delete
+    phases (times non-decreasing) returns, call by call, exactly what the instant-expiry store returns. -/
+theorem code_refines_spec (steps : List Step) (hw : wfSteps steps = true) (hm : monotoneFrom 0 steps = true) :
+    trace codeCfg M.empty steps = Spec.trace [] steps := by
+  apply run_refines_of codeCfg (by decide) steps M.empty [] 0 _ nodup_nil rfl hm
+  clear hm
+  induction steps with
+  | nil => rfl
+  | cons st r ih =>
+    cases st with
+    | op o now =>
+      simp only [wfSteps, Bool.and_eq_true] at hw
+      simp only [allLazy, Bool.and_eq_true]
+      exact ⟨(code_ops_lazy_and_keep_index o hw.1).1, ih hw.2⟩
+    | collect now => exact ih (by simpa [wfSteps] using hw)
+    | delete now => exact ih (by simpa [wfSteps] using hw)
 
 /-- the store with one expired, unswept entry used by the witnesses: `kA` of the given type, deadline 300, at time 500 -/
 def late (tag : Tag) : Shard := ⟨[(kA, ⟨tag, 1, some 300⟩)], [(kA, 300)]⟩
@@ -309,8 +422,8 @@ theorem never_late_fails_consequences :
     lookup (Spec.step (.update "rpush" kA .list 1) 500 (late .list).data).1 kA = some ⟨.list, 1, none⟩ := by
   decide
 
-/-- the functions without a lazy test, confirmed one by one over TCP with the sweeper paused (lib/c02.py matrix):
-    the table regenerated from the source may only SHRINK (a function that gains a test leaves it) -/
+/-- the functions that had NO lazy test before ab54c21, confirmed one by one over TCP with the sweeper paused (lib/c02.py
+    matrix); kept as the record the witnesses `never_late_fails` stand for -/
 def knownLate : List String :=
   ["append", "delete", "expire", "get_all_keys", "getrange", "hdel", "hexists", "hget", "hgetall", "hincrby", "hkeys", "hlen",
    "hmget", "hset", "hvals", "incr", "incr_by", "key_type", "keys", "lindex", "llen", "lpop", "lpush", "lrange", "lrem", "lset",
@@ -319,8 +432,8 @@ def knownLate : List String :=
    "xdel", "xlen", "xrange", "xread", "xrevrange", "xtrim", "zadd", "zcard", "zcount", "zincrby", "zrange", "zrangebyscore", "zrank",
    "zrem", "zscore"]
 
-/-- TABLE: every storage function that looks at `data` without testing the stored deadline is on the confirmed list. -/
-theorem late_functions_known : ∀ fn ∈ Gen.notLazy, fn ∈ knownLate := by decide
+/-- TABLE (current tree): every function that was late is lazily checked now, and none looks at `data` without a test. -/
+theorem late_functions_repaired : (∀ fn ∈ knownLate, fn ∈ Gen.lazyChecked) ∧ Gen.notLazy = [] := by decide
 
 /-- TABLE: the functions that had a lazy test still have it, and the sweeper still collects from the index. -/
 theorem lazy_core_kept : (∀ fn ∈ pinnedLazy, fn ∈ Gen.lazyChecked) ∧ (∀ fn ∈ pinnedReaping, fn ∈ Gen.reaping) ∧
@@ -448,12 +561,24 @@ theorem pttl_on_expired_unswept_fails :
     (Spec.cmd { name := "PTTL", k := kA } 500 (late .list).data).2 = .int (-2) := by
   decide
 
-/-- TABLE: the if-chain of `handle_ttl` and the conversion in `pttl` are the ones transliterated in `ttlOfRemaining` /
-    `pttlOfRemaining`. -/
+/-- TABLE: the if-chain of `handle_ttl` is the one transliterated in `ttlOfRemainingWith Gen.ttlLastMsFixed` — today the chain
+    with the last-millisecond −2 (`ttlOfRemaining`), after the proposed repair C02_4 the chain whose first arm tests a ZERO
+    duration — and `pttl` is the floor in milliseconds. -/
 theorem ttl_arithmetic_matches_source :
-    Gen.ttlArms = ["duration.as_secs() == 0 && duration.subsec_millis() == 0 => -2",
-                   "duration.as_secs() == 0 && duration.subsec_millis() > 0 => 1",
-                   "nanos > 0 => (secs + 1) as i64", "else => secs as i64"] ∧ Gen.pttlFloorsMillis = true := by decide
+    ((Gen.ttlLastMsFixed = false ∧
+      Gen.ttlArms = ["duration.as_secs() == 0 && duration.subsec_millis() == 0 => -2",
+                     "duration.as_secs() == 0 && duration.subsec_millis() > 0 => 1",
+                     "nanos > 0 => (secs + 1) as i64", "else => secs as i64"]) ∨
+     (Gen.ttlLastMsFixed = true ∧
+      Gen.ttlArms = ["duration.is_zero() => -2", "duration.as_secs() == 0 => 1",
+                     "nanos > 0 => (secs + 1) as i64", "else => secs as i64"])) ∧ Gen.pttlFloorsMillis = true := by decide
+
+/-- with the repaired first arm the full statement holds: for EVERY positive remaining time TTL is the remaining time in
+    seconds rounded up (and −2 only at zero); without it `ttlOfRemainingWith false` is the chain above. -/
+theorem ttl_reply_spec_repaired (ns : Nat) (h : 0 < ns) :
+    ttlOfRemainingWith true ns = Spec.ttlSeconds ns ∧ ttlOfRemainingWith true 0 = -2 ∧
+    ttlOfRemainingWith false ns = ttlOfRemaining ns :=
+  ⟨ttlOfRemainingWith_fixed_ceil ns h, by decide, ttlOfRemainingWith_unfixed ns⟩
 
 /-! ### Non-vacuity -/
 
